@@ -87,18 +87,20 @@ def build(spec, engine_cls=None, emitter=None, extra_steps=None, extra_topology=
             'clock': ('clock', name),
             'flag': ('flag',),
         }
+    steps = dict(extra_steps or {})
+    topo.update(extra_topology or {})
+    flow = dict(extra_flow or {})
     kw = dict(display_info=False, emitter=emitter or {'type': 'vmon_rec'},
               initial_global_time=spec.get('t0', 0), emit_step=spec.get('emit_step', 1))
     if spec.get('precision') is not None:
         kw['global_time_precision'] = spec['precision']
-    steps = dict(extra_steps or {})
-    topo.update(extra_topology or {})
-    flow = dict(extra_flow or {})
     cls = engine_cls or MonEngine
     for j in range(spec.get('nsteps', 0)):
         from vmon.sensors import LedgerStep
         steps['s%d' % j] = LedgerStep({'sid': 's%d' % j})
         topo['s%d' % j] = {'log': ('log',)}
+        if spec.get('step_flow') == 'layer':      # flow steps without dependencies: one layer
+            flow['s%d' % j] = []
     return cls(processes=procs or None, steps=steps or None, flow=flow or None, topology=topo, **kw)
 
 
